@@ -64,7 +64,7 @@ std::string postconditions(const std::string& in, const std::string& out, bool o
 
 const char* TOK[] = {"\\", "/", " ", ".", "a", ":", "textures", "data"};
 struct Plan { int maxTokens; size_t randomCases; };
-Plan plan() { return g_cfg.tier ? Plan{5, 2500} : Plan{4, 40}; }
+Plan plan() { return g_cfg.tier ? Plan{5, 2500} : Plan{4, 160}; }
 const size_t PER_CASE = 96;
 
 size_t enumCount(int L) { size_t n = 0, p = 1; for (int l = 1; l <= L; l++) { p *= 8; n += p; } return n + 1; }   // + empty string
